@@ -601,6 +601,8 @@ package rux
 //@ ghost lastMR(ref) ref
 //@ ghost lastMethod(ref) string
 //@ ghost hookCalls(ref) int
+// escaped(r): how many times a panic left handleHTTPRequest of router r (no hook, or the hook panicked)
+//@ ghost escaped(ref) int
 //
 //@ spec routeOK(rt *Route) bool = rt.handler != nil && len(rt.handlers) < 63
 //@ spec withinLimit(r *Router, n int) bool = len(r.handlers) + n <= 63
@@ -719,8 +721,11 @@ package rux
 //@   modifies ctx.index, ctx.data, entries(ctx.data), ctx.Errors, ctx.Req, ctx.Resp, ctx.Params, ctx.handlers, started(ctx), aborted(ctx)
 //@   modifies ctx.writer.status, ctx.writer.length, hdrCalls(ctx.writer.Writer), hdrStatus(ctx.writer.Writer), body(ctx.writer.Writer), early(ctx.writer.Writer)
 //@   modifies held(r.cachedRoutes.lock), entries(r.cachedRoutes.hashMap), lmem(r.cachedRoutes.list, _), rank(_), lclock(r.cachedRoutes.list), ln(r.cachedRoutes.list), lback(r.cachedRoutes.list)
-//@   modifies lastRoute(r), lastAlm(r), lastPath(r), lastMethod(r), hookCalls(ctx)
+//@   modifies lastRoute(r), lastAlm(r), lastPath(r), lastMethod(r), hookCalls(ctx), escaped(r)
 //@   panics r.OnPanic == nil || uf("hookPanics", bool, r.OnPanic)
+//@   xghostset escaped(r) = old(escaped(r)) + 1
+//@   xensures[C09] escapes_are_counted: escaped(r) == old(escaped(r)) + 1
+//@   ensures[C09] no_escape_on_return: escaped(r) == old(escaped(r))
 //@   ensures[C04] global_middleware_first: len(ctx.handlers) >= len(r.handlers) && (forall i int :: 0 <= i && i < len(r.handlers) ==> ctx.handlers[i] == r.handlers[i])
 //@   ensures[C04] then_route_chain: lastRoute(r) != nil ==> len(ctx.handlers) == len(r.handlers) + len(cast(lastRoute(r), *Route).handlers) + 1
 //@       && (forall i int :: 0 <= i && i < len(cast(lastRoute(r), *Route).handlers) ==> ctx.handlers[len(r.handlers) + i] == cast(lastRoute(r), *Route).handlers[i])
@@ -743,8 +748,10 @@ package rux
 //@   modifies allfields(Context), allelems([]error), allelems([]HandlerFunc), started(_), aborted(_), hookCalls(_), owned(_), lastRoute(r), lastAlm(r), lastPath(r), lastMethod(r)
 //@   modifies hdrCalls(res), hdrStatus(res), body(res), early(res), allentries(M)
 //@   modifies held(r.cachedRoutes.lock), entries(r.cachedRoutes.hashMap), lmem(r.cachedRoutes.list, _), rank(_), lclock(r.cachedRoutes.list), ln(r.cachedRoutes.list), lback(r.cachedRoutes.list)
+//@   modifies escaped(r)
 //@   panics r.OnPanic == nil || uf("hookPanics", bool, r.OnPanic)
 //@   ensures[C08] committed_exactly_once: hdrCalls(res) == 1 && !early(res)
+//@   ensures[C09] a_panic_that_leaves_dispatch_is_not_swallowed: escaped(r) == old(escaped(r))
 //@   ensures[C10, C03] context_returned_to_the_pool: forall c ref :: owned(c) ==> old(owned(c))
 
 //@ func (*responseWriter).Header [C08, C19, C20]
